@@ -1,5 +1,216 @@
 import Bxh.Proofs.ExecLemmas
+/-!
+# C06 — timeout rollback fires exactly at the timeout height and never otherwise
+Theorems about the executor's timeout bookkeeping (`setTimeoutList`, `getTimeoutList`,
+`setTimeoutRollback`) as modelled in `Bxh.Exec`.
+-/
 namespace Bxh.Props.C06
 open Bxh Bxh.Exec
-theorem placeholder_true : True := trivial
+
+def plainReq (f t : SvcId) (idx : Nat) (T : Int) : Ibtp :=
+  { frm := some f, to := some t, index := idx, typ := .interchain, timeout := T, group := none }
+
+/-- an accepted plain request (receipt SUCCESS, not batch, not begin-failed, destination not the hub
+itself) with `0 < T` and `H + T` not overflowing is put on the list of height `H + T` — no other -/
+theorem C06_request_recorded_at_deadline (cfg : Cfg) (l : Led) (h : Nat) (s : String) (f t : SvcId) (idx : Nat)
+    (T : Int) (p : ProofKind) (rc : Rcpt)
+    (hok : rc.ok = true) (hnb : rc.ret ≠ "batch_ibtp") (hnf : rc.txStatus ≠ 1) (hdst : t.chain ≠ cfg.bxh)
+    (hT : 0 < T) (hov : T.toNat < maxU64 - h) :
+    timeoutAct cfg l h (.ibtp s (plainReq f t idx T) p) rc = .add (h + T.toNat) { frm := f, to := t, index := idx } := by
+  unfold timeoutAct plainReq
+  have h1 : (t.chain == cfg.bxh) = false := by simpa using hdst
+  have h2 : (rc.ret == "batch_ibtp") = false := by simpa using hnb
+  have h3 : (rc.txStatus == 1) = false := by simpa using hnf
+  simp [h1, h2, h3, hok, IType.isRequest]
+  omega
+
+/-- requests with `T ≤ 0` (hence `T = 0`) or an overflowing `H + T` are never put on any list -/
+theorem C06_zero_never (cfg : Cfg) (l : Led) (h : Nat) (s : String) (f t : SvcId) (idx : Nat)
+    (T : Int) (p : ProofKind) (rc : Rcpt) (hT : T ≤ 0 ∨ T.toNat ≥ maxU64 - h) :
+    timeoutAct cfg l h (.ibtp s (plainReq f t idx T) p) rc = .skip := by
+  unfold timeoutAct plainReq
+  simp only [IType.isRequest]
+  split
+  · rfl
+  · simp [hT]
+
+/-- a rejected request (FAILED receipt), a batch request and a begin-failed request are never listed -/
+theorem C06_rejected_never (cfg : Cfg) (l : Led) (h : Nat) (s : String) (i : Ibtp) (p : ProofKind) (rc : Rcpt)
+    (hrej : rc.ok = false ∨ rc.ret = "batch_ibtp" ∨ rc.txStatus = 1) :
+    timeoutAct cfg l h (.ibtp s i p) rc = .skip := by
+  simp only [timeoutAct]
+  cases hf : i.frm with
+  | none => rfl
+  | some f =>
+    cases ht : i.to with
+    | none => rfl
+    | some t =>
+      have : (t.chain == cfg.bxh || i.group.isSome || (!rc.ok || rc.ret == "batch_ibtp") || rc.txStatus == 1) = true := by
+        rcases hrej with h1 | h1 | h1 <;> simp [h1]
+      simp only [this, if_true]
+
+/-- an accepted receipt for a one-to-one record asks for removal from the list of the recorded
+timeout height -/
+theorem C06_receipt_removes (cfg : Cfg) (l : Led) (h : Nat) (s : String) (f t : SvcId) (idx : Nat)
+    (ty : IType) (p : ProofKind) (rc : Rcpt) (r : Rec)
+    (hresp : ty.isResponse = true)
+    (hok : rc.ok = true) (hnb : rc.ret ≠ "batch_ibtp") (hnf : rc.txStatus ≠ 1) (hdst : t.chain ≠ cfg.bxh)
+    (hrec : l.getS (.txRec { frm := f, to := t, index := idx }) = some (.trec r)) :
+    timeoutAct cfg l h (.ibtp s { frm := some f, to := some t, index := idx, typ := ty, timeout := 0, group := none } p) rc
+      = .remove r.height { frm := f, to := t, index := idx } := by
+  unfold timeoutAct
+  have h1 : (t.chain == cfg.bxh) = false := by simpa using hdst
+  have h2 : (rc.ret == "batch_ibtp") = false := by simpa using hnb
+  have h3 : (rc.txStatus == 1) = false := by simpa using hnf
+  have h5 : ty.isRequest = false := by cases ty <;> simp_all [IType.isResponse, IType.isRequest]
+  simp [h1, h2, h3, hok, h5, hresp, hrec]
+
+/-- `getTimeoutList` of a stored list whose first element is not empty is the list itself -/
+theorem getTimeoutList_of (l : Led) (h : Nat) (x : TId) (xs : List TId)
+    (hs : l.getS (.timeout h) = some (.tlist ((x :: xs).map some))) : getTimeoutList l h = x :: xs := by
+  unfold getTimeoutList
+  simp only [hs]
+  simp
+
+end Bxh.Props.C06
+
+namespace Bxh.Props.C06
+open Bxh Bxh.Exec
+
+/-- one step of `setTimeoutRollback` never touches a one-to-one record other than the one it sets -/
+theorem rollbackStep_other (h : Nat) (acc : Led × Bool) (id : TId) (t : TxId) (hne : id ≠ .single t) :
+    (rollbackStep h acc id).1.getS (.txRec t) = acc.1.getS (.txRec t) := by
+  unfold rollbackStep
+  split
+  · rfl
+  · cases id with
+    | single t' =>
+      have : t' ≠ t := fun e => hne (by rw [e])
+      simp only [Led.getS, Led.setS]
+      exact KV.get_set_ne _ _ _ _ (by intro e; cases e; exact this rfl)
+    | global g =>
+      simp only
+      split
+      · simp only [Led.getS, Led.setS]
+        exact KV.get_set_ne _ _ _ _ (by intro e; cases e)
+      · rfl
+
+/-- the fold keeps a record that was set to `{h, BEGIN_ROLLBACK}` -/
+theorem rollbackFold_keeps (h : Nat) (t : TxId) (ids : List TId) (acc : Led × Bool)
+    (hset : acc.1.getS (.txRec t) = some (.trec { height := h, status := .beginRollback })) :
+    (ids.foldl (rollbackStep h) acc).1.getS (.txRec t) = some (.trec { height := h, status := .beginRollback }) := by
+  induction ids generalizing acc with
+  | nil => exact hset
+  | cons id rest ih =>
+    simp only [List.foldl_cons]
+    apply ih
+    by_cases he : id = .single t
+    · subst he
+      unfold rollbackStep
+      split
+      · exact hset
+      · simp [Led.getS, Led.setS]
+    · rw [rollbackStep_other h acc id t he]; exact hset
+
+/-- every global id on the list has its record (otherwise the real code logs an error and stops) -/
+def GlobalsPresent (l : Led) (ids : List TId) : Prop :=
+  ∀ g, TId.global g ∈ ids → ∃ gi, l.getS (.glob g) = some (.glob gi)
+
+theorem rollbackStep_glob_present (h : Nat) (acc : Led × Bool) (id : TId) (g : GId)
+    (hp : ∃ gi, acc.1.getS (.glob g) = some (.glob gi)) :
+    ∃ gi, (rollbackStep h acc id).1.getS (.glob g) = some (.glob gi) := by
+  unfold rollbackStep
+  split
+  · exact hp
+  · cases id with
+    | single t =>
+      simp only [Led.getS, Led.setS]
+      rw [KV.get_set_ne _ _ _ _ (by intro e; cases e)]
+      exact hp
+    | global g' =>
+      simp only
+      split
+      · rename_i gi hgi
+        by_cases he : g' = g
+        · subst he
+          refine ⟨{ gi with state := .beginRollback, children := gi.children.map (fun p => (p.1, Status.beginRollback)) }, ?_⟩
+          simp [Led.getS, Led.setS]
+        · simp only [Led.getS, Led.setS]
+          rw [KV.get_set_ne _ _ _ _ (by intro e; cases e; exact he rfl)]
+          exact hp
+      · exact hp
+
+theorem rollbackFold_no_abort (h : Nat) (ids : List TId) (acc : Led × Bool) (hb : acc.2 = false)
+    (hg : GlobalsPresent acc.1 ids) : (ids.foldl (rollbackStep h) acc).2 = false := by
+  induction ids generalizing acc with
+  | nil => exact hb
+  | cons id rest ih =>
+    simp only [List.foldl_cons]
+    apply ih
+    · unfold rollbackStep
+      simp only [hb]
+      cases id with
+      | single t => rfl
+      | global g =>
+        obtain ⟨gi, hgi⟩ := hg g List.mem_cons_self
+        simp [hgi]
+    · intro g hmem
+      exact rollbackStep_glob_present h acc id g (hg g (List.mem_cons_of_mem _ hmem))
+
+/-- **fires at the deadline**: after the timeout step of block `h`, every one-to-one id on the list
+of height `h` has status BEGIN_ROLLBACK (recorded with height `h`) -/
+theorem rollbackFold_sets (h : Nat) (t : TxId) (ids : List TId) (acc : Led × Bool) (hb : acc.2 = false)
+    (hg : GlobalsPresent acc.1 ids) (hmem : TId.single t ∈ ids) :
+    (ids.foldl (rollbackStep h) acc).1.getS (.txRec t) = some (.trec { height := h, status := .beginRollback }) := by
+  induction ids generalizing acc with
+  | nil => cases hmem
+  | cons id rest ih =>
+    simp only [List.foldl_cons]
+    have hb' : (rollbackStep h acc id).2 = false := by
+      unfold rollbackStep
+      simp only [hb]
+      cases id with
+      | single t => rfl
+      | global g =>
+        obtain ⟨gi, hgi⟩ := hg g List.mem_cons_self
+        simp [hgi]
+    have hg' : GlobalsPresent (rollbackStep h acc id).1 rest := by
+      intro g hm
+      exact rollbackStep_glob_present h acc id g (hg g (List.mem_cons_of_mem _ hm))
+    rcases List.mem_cons.mp hmem with he | hr
+    · subst he
+      apply rollbackFold_keeps
+      unfold rollbackStep
+      simp [hb, Led.getS, Led.setS]
+    · exact ih _ hb' hg' hr
+
+theorem C06_fires_at_deadline (l : Led) (h : Nat) (t : TxId)
+    (hmem : TId.single t ∈ getTimeoutList l h) (hg : GlobalsPresent l (getTimeoutList l h)) :
+    tmGetStatus (setTimeoutRollback l h) t = some .beginRollback := by
+  unfold setTimeoutRollback
+  have := rollbackFold_sets h t (getTimeoutList l h) (l, false) rfl hg hmem
+  simp [tmGetStatus, this]
+
+/-- **never otherwise**: an id that is not on the list of height `h` is not touched by the timeout
+step of block `h` -/
+theorem C06_not_listed_untouched (l : Led) (h : Nat) (t : TxId)
+    (hnm : TId.single t ∉ getTimeoutList l h) :
+    (setTimeoutRollback l h).getS (.txRec t) = l.getS (.txRec t) := by
+  unfold setTimeoutRollback
+  generalize getTimeoutList l h = ids at hnm
+  suffices H : ∀ acc : Led × Bool, (ids.foldl (rollbackStep h) acc).1.getS (.txRec t) = acc.1.getS (.txRec t) from H (l, false)
+  induction ids with
+  | nil => intro acc; rfl
+  | cons id rest ih =>
+    intro acc
+    simp only [List.foldl_cons]
+    rw [ih (fun hm => hnm (List.mem_cons_of_mem _ hm))]
+    exact rollbackStep_other h acc id t (fun e => hnm (by rw [e]; exact List.mem_cons_self))
+
+/-- an empty list element at the head (the residue of an emptied list) hides the whole list:
+ids appended after it are never timed out (quirk of `strings.Split("", ",")`, kept by the model) -/
+theorem C06_emptied_list_quirk (l : Led) (h : Nat) (rest : List (Option TId))
+    (hs : l.getS (.timeout h) = some (.tlist (none :: rest))) : getTimeoutList l h = [] := by
+  simp [getTimeoutList, hs]
+
 end Bxh.Props.C06
